@@ -388,7 +388,9 @@ func (tx *Transaction) AddRequestHeader(key string, value string) {
 	switch keyl {
 	case "content-type":
 		val := strings.ToLower(value)
-		if val == "application/x-www-form-urlencoded" {
+		// Parameters (e.g. "; charset=UTF-8") do not change the media type.
+		mediaType, _, _ := strings.Cut(val, ";")
+		if strings.TrimSpace(mediaType) == "application/x-www-form-urlencoded" {
 			tx.variables.reqbodyProcessor.Set("URLENCODED")
 		} else if strings.HasPrefix(val, "multipart/form-data") {
 			tx.variables.reqbodyProcessor.Set("MULTIPART")
